@@ -154,4 +154,9 @@ static inline void vec_u8__erase(vec_u8 *v, vec_u8_iter first, vec_u8_iter last)
   v->size = v->size - cnt;
 }
 
+/* erase(position): the iterator must be dereferenceable (libstdc++ does not check) */
+static inline void vec_u8__erase1(vec_u8 *v, vec_u8_iter pos)
+{ __CPROVER_assert(pos.v == v && pos.i < v->size, "erase: position is a dereferenceable iterator of this container");
+  vec_u8_iter last = pos; last.i = pos.i + 1; vec_u8__erase(v, pos, last); }
+
 #endif
